@@ -302,95 +302,137 @@ def from_notes_paths(ctx: Ctx) -> None:
 
 
 def from_notes_fill(ctx: Ctx) -> None:
-    """C08.2: skipped players / measures / rows are filled: range(last + 1, current), last <- current each iteration."""
+    """C08.2: the top level of from_notes, read off its path effects.  Per player group (when the player number advances): a '&' separator unless it
+    is the first, a blank measure plus '&' for every skipped player (range(last + 1, p)), last <- p.  Per measure group: a ',' separator unless it
+    is the first of the player, a blank measure plus ',' for every skipped measure (range(last + 1, m)), then the measure with all its notes,
+    last <- m.  After the loops: one blank measure exactly when no note was seen."""
+    from ..decide import IGNORE, check_table
+    from .tables import Dec, closed, judge as tjudge, sums_of as tsums
     p = ctx.p
     fi = p.func(f"{ND}.from_notes")
     pmf = fi.nested.get("push_measure")
     require(pmf is not None, f"{fi.fq}: nested push_measure not found")
-    specs = [
-        (fi, "player", "n.player", pmf, "&\n"),
-        (fi, "measure", "n.beat // 4", pmf, ",\n"),
-    ]
-    writes_const: Dict[str, List[str]] = {}
-    for host, what, keysrc, filler, sep in specs:
-        cfg = ctx.cfg(host)
-        gls = _groupby_loops(ctx, host)
-        cand = []
-        for lp, k, g, it, lam in gls:
-            body = ast.unparse(lam.body)
-            argn = lam.args.args[0].arg
-            if what == "player" and body == f"{argn}.player":
-                cand.append((lp, k, g))
-            if what == "measure" and body == f"{argn}.beat // 4":
-                cand.append((lp, k, g))
-            if what == "row" and "%" in body:
-                cand.append((lp, k, g))
-        lp, k, g = one(cand, f"groupby loop over {what}s in {host.fq}")
-        # fill loop: for _ in range(last + 1, k)
-        fills = []
-        for inner in [n for st in lp.body for n in walk_no_nested(st) if isinstance(n, ast.For)]:
-            nested_groupby = [g2 for g2, _, _, _, _ in gls if g2 is not lp and in_body(lp, g2)]
-            if any(in_body(g2, inner) or g2 is inner for g2 in nested_groupby):
-                continue
-            if any(isinstance(c, ast.Call) and callee(ctx, host, c) is filler and not c.args and not c.keywords for st in inner.body for c in walk_no_nested(st)):
-                fills.append(inner)
-        fl = one(fills, f"fill loop writing blank {what}s in {host.fq}")
-        it = fl.iter
-        shape = isinstance(it, ast.Call) and isinstance(it.func, ast.Name) and it.func.id == "range" and len(it.args) == 2 and not it.keywords
-        # 'last' = the sentinel initialised to -1 before the groupby loop and advanced to the group key inside it
-        cands = [n for n, bs in locals_of(host).b.items() if any(b.kind == "assign" and try_ev(ctx, host, b.value) == -1 and not in_body(lp, b.node) for b in bs)
-                 and any(b.kind == "assign" and isinstance(b.value, ast.Name) and b.value.id == k and in_body(lp, b.node) for b in bs)]
-        if len(cands) != 1 and shape:
-            # fall back to the sentinel named in the range's lower bound (its update is judged below)
-            cands = sorted({n.id for n in ast.walk(it.args[0]) if isinstance(n, ast.Name)
-                            and any(b.kind == "assign" and try_ev(ctx, host, b.value) == -1 for b in locals_of(host).b.get(n.id, []))})
-        last = one(cands, f"'last {what}' sentinel of the loop over {what}s in {host.fq}")
-        okr = bool(shape) and P.equal(P.poly(it.args[0]), P.add(P.atom(last), P.const(1))) and isinstance(it.args[1], ast.Name) and it.args[1].id == k
-        ctx.expect("R-POLY", host, f"skipped {what}s: blanks are written for range({last} + 1, {k})", okr, src(it), f"fill range is {src(it)}, not range({last} + 1, {k}): a skipped {what} "
-                   f"between two present ones would be lost or duplicated", node=fl)
-        fsf = facts(ctx, host, fl)
-        extra = [(ast.unparse(a), pol) for a, pol in fsf if not (what == "player" and pol and ast.unparse(a) == f"{k} > {last}")]
-        ctx.expect("R-ORDER", host, f"the blanks for skipped {what}s are written on every iteration that advances", not extra, "", f"the fill loop only runs under {extra}", node=fl)
-        fc = [c for st in fl.body for c in walk_no_nested(st) if isinstance(c, ast.Call) and callee(ctx, host, c) is filler and not c.args and not c.keywords]
-        ctx.expect("R-ORDER", host, f"each skipped {what} is written blank", len(fc) == 1, "", f"{len(fc)} blank {what} write(s) in the fill loop", node=fl)
-        if sep is not None:
-            sw = [c for st in fl.body for c in walk_no_nested(st) if isinstance(c, ast.Call) and isinstance(c.func, ast.Attribute) and c.func.attr == "write"
-                  and c.args and isinstance(c.args[0], ast.Constant)]
-            ctx.expect("R-TABLE", host, f"each skipped {what} is followed by its separator", [c.args[0].value for c in sw] == [sep], str([c.args[0].value for c in sw]),
-                       f"separators written in the fill loop: {[c.args[0].value for c in sw]}, expected {[sep]}", node=fl)
-        # last <- current on every iteration in which the group is written
-        upd = [n for st in lp.body for n in walk_no_nested(st) if isinstance(n, ast.Assign) and len(n.targets) == 1 and isinstance(n.targets[0], ast.Name)
-               and n.targets[0].id == last and isinstance(n.value, ast.Name) and n.value.id == k]
-        okupd = len(upd) == 1
-        if okupd and what != "player":
-            okupd = loop_must_pass(cfg, lp, [cfg_node_of(cfg, host, upd[0])]) is None
-        ctx.expect("R-ORDER", host, f"'{last}' is advanced to the current {what} every iteration", okupd, "", f"{last} is not updated to {k} on every iteration", node=lp)
-        # initial value -1 before the loop
-        inits = [b for b in locals_of(host).b.get(last, []) if b.kind == "assign" and isinstance(b.value, (ast.Constant, ast.UnaryOp)) and try_ev(ctx, host, b.value) == -1
-                 and not in_body(lp, b.node)]
-        ctx.expect("R-ORDER", host, f"'{last}' starts at -1", len(inits) == 1 and cfg.dominates(cfg_node_of(cfg, host, inits[0].node), cfg.node_for(lp)), "", "", node=lp)
-        # the group itself is written: filler(list(g))
-        wr = [c for st in lp.body for c in walk_no_nested(st) if isinstance(c, ast.Call) and callee(ctx, host, c) is filler and len(c.args) == 1]
-        if what != "player":
-            okw = len(wr) == 1 and isinstance(wr[0].args[0], ast.Call) and isinstance(wr[0].args[0].func, ast.Name) and wr[0].args[0].func.id == "list" \
-                and isinstance(wr[0].args[0].args[0], ast.Name) and wr[0].args[0].args[0].id == g
-            okw = okw and loop_must_pass(cfg, lp, [cfg_node_of(cfg, host, wr[0])]) is None
-            ctx.expect("R-ORDER", host, f"each {what} group is written with all its notes", okw, "", f"{what} group write not found on every iteration", node=lp)
-        # separators between consecutive groups: written at the start of an iteration iff last > -1
-        if sep is not None:
-            seps = [c for st in lp.body for c in walk_no_nested(st) if isinstance(c, ast.Call) and isinstance(c.func, ast.Attribute) and c.func.attr == "write"
-                    and c.args and isinstance(c.args[0], ast.Constant) and c.args[0].value == sep and not in_body(fl, c)]
-            oks = False
-            for c in seps:
-                fs = facts(ctx, host, c)
-                if any(pol and isinstance(a, ast.Compare) and isinstance(a.left, ast.Name) and a.left.id == last and isinstance(a.ops[0], ast.Gt) and try_ev(ctx, host, a.comparators[0]) == -1
-                       for a, pol in fs):
-                    oks = True
-            ctx.expect("R-TABLE", host, f"a separator {sep!r} precedes every {what} but the first", len(seps) == 1 and oks, "", f"{len(seps)} separator write(s) outside the fill loop", node=lp)
+    notes_p = fi.param_names()[1]
+
+    def is_range(fornode, env):
+        it = fornode.iter
+        return isinstance(it, ast.Call) and isinstance(it.func, ast.Name) and it.func.id == "range"
+
+    # the fill loops are taken at least once on every path (an empty range writes nothing - nothing to judge there)
+    sums = tsums(ctx, fi, variant="fill-loops-taken", also_nonempty=is_range)
+    writers_ = sorted({t.id for n in body_walk(fi.node) if isinstance(n, ast.Assign) and isinstance(n.value, ast.Call) and ast.unparse(n.value) in ("StringIO()", "io.StringIO()")
+                       for t in n.targets if isinstance(t, ast.Name)})
+    require(len(writers_) == 1, f"{fi.fq}: expected one StringIO() buffer, found {writers_}")
+    WR = writers_[0]
+    # the two grouping loops, by what they group on
+    loops = {}
+    for s_ in sums:
+        for i, e in enumerate(s_.effects):
+            if e.kind == "for" and isinstance(e.value, ast.Call) and ast.unparse(e.value.func) in ("groupby", "itertools.groupby") and len(e.value.args) == 2 and isinstance(e.value.args[1], ast.Lambda) \
+                    and isinstance(e.target, ast.Tuple) and len(e.target.elts) == 2 and all(isinstance(x, ast.Name) for x in e.target.elts):
+                lam = e.value.args[1]
+                body = ast.unparse(lam.body).replace(lam.args.args[0].arg, "N")
+                kind = {"N.player": "player", "N.beat // 4": "measure"}.get(body)
+                if kind:
+                    loops.setdefault(kind, set()).add((e.line, e.target.elts[0].id, e.target.elts[1].id, ast.unparse(e.value.args[0]), len(e.loops)))
+    require(set(loops) == {"player", "measure"} and all(len(v) == 1 for v in loops.values()), f"{fi.fq}: expected one groupby loop over players and one over measures (key n.player / n.beat // 4), found {loops}")
+    Lp, P_, PG, p_src, p_depth = next(iter(loops["player"]))
+    Lm, M_, MG, m_src, m_depth = next(iter(loops["measure"]))
+    ctx.expect("R-ORDER", fi, "players are grouped over the caller's stream, measures over each player's notes", p_src == notes_p and m_src == PG and p_depth == 0 and m_depth == 1,
+               f"{p_src} / {m_src}", f"the player loop groups {p_src} (depth {p_depth}), the measure loop groups {m_src} (depth {m_depth})", node=fi.node)
+    # the sentinels: locals bound to -1 before the player loop / inside it before the measure loop
+    sent = {"player": set(), "measure": set()}
+    for s_ in sums:
+        for e in s_.effects:
+            if e.kind == "bind" and isinstance(e.target, ast.Name) and e.value is not None and ast.unparse(e.value) == "-1":
+                if not e.loops:
+                    sent["player"].add(e.target.id)
+                elif e.loops == (Lp,):
+                    sent["measure"].add(e.target.id)
+    require(all(len(v) == 1 for v in sent.values()), f"{fi.fq}: expected one 'last player' and one 'last measure' sentinel starting at -1, found {sent}")
+    LP, LM = next(iter(sent["player"])), next(iter(sent["measure"]))
+
+    def tok(s_, i, e, base_depth):
+        ind = "  " * (len(e.loops) - base_depth)
+        v = e.value
+        if e.kind == "for":
+            return ind[2:] + "for " + ast.unparse(closed(s_, v, i, keep=[LP, LM, P_, M_]))
+        if e.kind == "bind" and isinstance(e.target, ast.Name):
+            if e.target.id in (LP, LM):
+                return ind + f"{e.target.id} := {ast.unparse(v) if v is not None else '?'}"
+            return None
+        if e.kind == "expr" and isinstance(v, ast.Call):
+            f_ = v.func
+            if isinstance(f_, ast.Name) and f_.id == pmf.name:
+                if not v.args and not v.keywords:
+                    return ind + "blank measure"
+                return ind + "measure " + ", ".join(ast.unparse(a) for a in v.args)
+            if isinstance(f_, ast.Attribute) and f_.attr == "write" and isinstance(f_.value, ast.Name) and f_.value.id == WR and len(v.args) == 1:
+                c = try_ev(ctx, fi, v.args[0])
+                if isinstance(c, str):
+                    return ind + f"write {c!r}"
+                raise AnalysisError(f"{fi.fq}: the text written at line {e.line % 100000} is not a constant separator: {ast.unparse(v.args[0])[:80]}")
+            return ind + "other " + ast.unparse(v)
+        if e.kind in ("store", "aug", "delete", "break", "continue", "raise", "yield", "return"):
+            return ind + ("other " + e.text if e.kind not in ("break", "continue", "return") else e.kind)
+        return None
+
+    pl_decs, me_decs, post_decs = [], [], []
+    for s_ in sums:
+        has_p = any(e.kind == "for" and e.line == Lp for e in s_.effects)
+        has_m = any(e.kind == "for" and e.line == Lm for e in s_.effects)
+        if has_p:
+            toks = [t for t in (tok(s_, i, e, 1) for i, e in enumerate(s_.effects) if Lp in e.loops and Lm not in e.loops and not (e.kind == "for" and e.line == Lm)) if t is not None]
+            pl_decs.append(Dec({k: v for k, v in s_.atoms_in(Lp).items() if not any(Lm in ls for ls in [s_.where.get(k, ((), 0))[0]])}, tuple(toks), s_))
+        if has_m:
+            toks = [t for t in (tok(s_, i, e, 2) for i, e in enumerate(s_.effects) if Lm in e.loops) if t is not None]
+            me_decs.append(Dec(dict(s_.atoms_in(Lm)), tuple(toks), s_))
+        idx = next((i for i, e in enumerate(s_.effects) if e.kind == "for" and e.line == Lp), None)
+        tail = [t for t in (tok(s_, i, e, 0) for i, e in enumerate(s_.effects) if not e.loops and (idx is None or i > idx) and e.kind not in ("return",)) if t is not None and not t.startswith(f"{LP} := ")]
+        asg = {k: v for k, v in s_.plain_assign().items() if not s_.where.get(k, ((), 0))[0]}
+        post_decs.append(Dec(asg, (tuple(tail), "iterated" if has_p else "no note"), s_))
+    ADV, NF, NFM = f"{P_} > {LP}", f"{LP} > -1", f"{LM} > -1"
+
+    def spec_player(a):
+        if not a[ADV]:
+            return (f"{LM} := -1",)
+        return ((f"write {'&' + chr(10)!r}",) if a[NF] else ()) + (f"for range({LP} + 1, {P_})", "  blank measure", f"  write {'&' + chr(10)!r}", f"{LP} := {P_}", f"{LM} := -1")
+
+    tjudge(ctx, "R-TABLE", fi, "per player group: when the player number advances, '&' unless it is the first, a blank measure + '&' for each skipped player (range(last + 1, p)), last <- p; "
+           "the measure counter restarts at -1", pl_decs, [ADV, NF], spec_player, why="skipped players are blank; sections are separated by '&' as the reader splits them")
+
+    def spec_measure(a):
+        return ((f"write {',' + chr(10)!r}",) if a[NFM] else ()) + (f"for range({LM} + 1, {M_})", "  blank measure", f"  write {',' + chr(10)!r}", f"measure list({MG})", f"{LM} := {M_}")
+
+    tjudge(ctx, "R-TABLE", fi, "per measure group: ',' unless it is the player's first, a blank measure + ',' for each skipped measure (range(last + 1, m)), then the measure with all its notes, last <- m",
+           me_decs, [NFM], spec_measure, why="every measure up to the last note is present; skipped measures are blank; measures are separated by ',' as the reader splits them")
+    # after the loops: a blank measure exactly when nothing was written
+    NONE = f"{LP} == -1"
+    v_, u_ = check_table(post_decs, [NONE], lambda a: IGNORE, lambda d: d.outcome, strict_foreign=False)
+    bad_post = []
+    for d in post_decs:
+        tail, how = d.outcome
+        none_seen = d.assign.get(canon_k(NONE))
+        if how == "no note":
+            if tail != ("blank measure",):
+                bad_post.append(f"for an empty stream the function writes {list(tail)} after the loops (expected one blank measure)")
+        elif none_seen is True and tail not in (("blank measure",),):
+            bad_post.append(f"under {NONE} the function writes {list(tail)}")
+        elif none_seen is False and tail != ():
+            bad_post.append(f"although notes were written ({LP} != -1) the function still writes {list(tail)} after the loops")
+        elif none_seen is None and tail not in ((), ) and how == "iterated":
+            raise AnalysisError(f"{fi.fq}: after the loops {list(tail)} is written under {dict(d.assign)}: not decided from the 'last player' sentinel")
+    ctx.expect("R-TABLE", fi, "after the loops: one blank measure exactly when no note was seen (the empty stream gives one blank measure, not an error)", not bad_post, f"{len(post_decs)} paths",
+               "; ".join(sorted(set(bad_post))[:2]), node=fi.node)
     # writer separators vs reader split characters
     fit = p.func(f"{ND}.__iter__")
     splits = sorted({s[1] for c in calls(fit) for s in [_split_on(c)] if s})
     ctx.expect("R-TABLE", fi, "separators written ('&', ',') are the ones the reader splits on", splits == ["&", ","], str(splits), f"reader splits on {splits}", node=fi.node)
+
+
+def canon_k(t: str) -> str:
+    from ..decide import key as _k
+    return _k(t)
 
 
 def from_notes_rows(ctx: Ctx) -> None:
@@ -939,7 +981,7 @@ def timed_rules(ctx: Ctx) -> None:
     tjudge(ctx, "R-ORDER", f, "a note is passed on unchanged (same object, with the time of its beat) exactly when hittable or KEEP_NOTE; an unhittable TAP under TAP_TO_FAKE becomes a fake "
            "that differs in nothing but the type; every other unhittable note is dropped", decs, [H, K, F, T], spec,
            equiv={f"{un} == UnhittableNotes.DROP_NOTE": (F, False)} if False else None)
-    ctx.floor("paths through the note loop of time_notes", len(decs), 3)
+    ctx.floor("paths through the note loop of time_notes", len(decs), 1)
 
 
 def columns_rule(ctx: Ctx) -> None:
